@@ -128,112 +128,156 @@ Definition eobserve (s : est) (r : res) : list Z :=
   [res_code r; bz (eflag s); nz (length (ewaiters s))].
 
 (* ====================================================================================================== *)
-(*  Condition                                                                                             *)
+(*  Condition(s) on a shared Lock                                                                         *)
+(*  One Lock (the machine of Lock.v), any number of Condition objects built on it (`Condition(lock)`),    *)
+(*  identified by small numbers, and direct use of the lock (`lock.acquire()/release()`) by any task.     *)
 (* ====================================================================================================== *)
+Definition cid := nat.
 
 Inductive cphase :=
-| PIdle                          (* at a decision point (may or may not hold the lock) *)
-| PAcq                           (* suspended inside Condition.acquire(), i.e. inside Lock.acquire() *)
-| PWait (e : eid)                (* wait(): enqueued event e, released the lock, suspended in e.wait() *)
-| PReacq (e : eid) (exc : bool). (* wait(): suspended inside the shielded re-acquire; exc = an exception is
-                                    pending (the event wait was interrupted) *)
+| PIdle                                   (* at a decision point (may or may not hold the lock) *)
+| PAcq (oc : option cid)                  (* suspended inside lock.acquire(); Some c = called through
+                                             condition c's acquire() *)
+| PWait (c : cid) (e : eid)               (* c.wait(): enqueued event e, released the lock, suspended in e.wait() *)
+| PReacq (c : cid) (e : eid) (exc : bool). (* c.wait(): suspended inside the shielded re-acquire; exc = an
+                                             exception is pending (the event wait was interrupted) *)
 
 Inductive cop :=
-| CAcquire (t : tid)
-| CAcqNowait (t : tid)
-| CRelease (t : tid)
-| CNotify (t : tid) (n : nat)
-| CNotifyAll (t : tid)
-| CWait (t : tid)
+| CAcquire (c : cid) (t : tid)
+| CAcqNowait (c : cid) (t : tid)
+| CRelease (c : cid) (t : tid)
+| CNotify (c : cid) (t : tid) (n : nat)
+| CNotifyAll (c : cid) (t : tid)
+| CWait (c : cid) (t : tid)
+| LAcquire (t : tid)         (* await lock.acquire() directly on the shared lock *)
+| LAcqNowait (t : tid)
+| LRelease (t : tid)
 | CResume (t : tid)
 | CCancel (t : tid)          (* native Task.cancel() on blocked task t *)
 | CScopeCancel (t : tid).    (* the AnyIO cancel scope around t's acquire()/wait() call is cancelled *)
 
+(* which tree is modelled: 0 = HEAD (the condition asks its lock who the owner is, ba2c76e),
+   1 = private owner copy cleared by Condition.release() (826e17f .. ba2c76e~1, finding F17),
+   2 = private owner copy never cleared (before 826e17f, finding F7) *)
 Record cst := cmk {
-  pinned : bool;                 (* true = tree before 826e17f: release() keeps the recorded owner *)
-  lk : Lock.st;                  (* the underlying Lock (its FIFO, futures, phases, must-cancel flags) *)
-  owner_rec : option tid;        (* Condition._owner_task *)
-  cwaiters : list eid;           (* Condition._waiters: FIFO of one-shot events *)
+  variant : nat;
+  lk : Lock.st;                  (* the shared Lock (its FIFO, futures, phases, must-cancel flags) *)
+  owner_rec : cid -> option tid; (* Condition._owner_task of the old trees (not read at HEAD) *)
+  cwaiters : cid -> list eid;    (* Condition._waiters: FIFO of one-shot events, per condition *)
   eset : eid -> bool;            (* flag of one-shot event e *)
   efut : eid -> fstate;          (* the single waiter future of one-shot event e *)
   nev : eid;
   cphase_of : tid -> cphase;
   (* ghost *)
-  cenq : list eid;               (* every event ever enqueued, in arrival order *)
+  cenq : list eid;               (* every event ever enqueued, in arrival order (= increasing id) *)
   setlog : list eid;             (* every event set by notify / notify_all / pass-on, in order *)
   inflight : list eid;           (* events that are set and whose wait() has neither returned nor failed over *)
+  horizon : eid -> nat;          (* for a set event: number of wait() calls started before the notify /
+                                    notify_all call whose notification it carries (copied on pass-on) *)
+  nlog : list nat;               (* that number for every accepted notify / notify_all call *)
   issued : nat;                  (* events set by notify / notify_all *)
   consumed : nat;                (* wait() calls that returned normally *)
   dropped : nat;                 (* pass-on with an empty queue: notification handed to nobody *)
   lost : nat                     (* notified waiter whose re-acquire failed (native cancel inside the shield) *)
 }.
 
-Definition cinit (fa pin : bool) : cst :=
-  cmk pin (Lock.init fa) None [] (fun _ => false) (fun _ => FPending) 0 (fun _ => PIdle)
-      [] [] [] 0 0 0 0.
+Definition cinit (fa : bool) (v : nat) : cst :=
+  cmk v (Lock.init fa) (fun _ => None) (fun _ => []) (fun _ => false) (fun _ => FPending) 0 (fun _ => PIdle)
+      [] [] [] (fun _ => 0) [] 0 0 0 0.
 
 Definition c_is_idle (p : cphase) := match p with PIdle => true | _ => false end.
 
 (* ---- field setters ---- *)
 Definition with_lk (s : cst) (l : Lock.st) : cst :=
-  cmk (pinned s) l (owner_rec s) (cwaiters s) (eset s) (efut s) (nev s) (cphase_of s)
-      (cenq s) (setlog s) (inflight s) (issued s) (consumed s) (dropped s) (lost s).
+  cmk (variant s) l (owner_rec s) (cwaiters s) (eset s) (efut s) (nev s) (cphase_of s)
+      (cenq s) (setlog s) (inflight s) (horizon s) (nlog s) (issued s) (consumed s) (dropped s) (lost s).
 
-Definition with_owner (s : cst) (o : option tid) : cst :=
-  cmk (pinned s) (lk s) o (cwaiters s) (eset s) (efut s) (nev s) (cphase_of s)
-      (cenq s) (setlog s) (inflight s) (issued s) (consumed s) (dropped s) (lost s).
+Definition with_owner (s : cst) (o : cid -> option tid) : cst :=
+  cmk (variant s) (lk s) o (cwaiters s) (eset s) (efut s) (nev s) (cphase_of s)
+      (cenq s) (setlog s) (inflight s) (horizon s) (nlog s) (issued s) (consumed s) (dropped s) (lost s).
 
-Definition with_cw (s : cst) (w : list eid) : cst :=
-  cmk (pinned s) (lk s) (owner_rec s) w (eset s) (efut s) (nev s) (cphase_of s)
-      (cenq s) (setlog s) (inflight s) (issued s) (consumed s) (dropped s) (lost s).
+Definition with_cw (s : cst) (c : cid) (w : list eid) : cst :=
+  cmk (variant s) (lk s) (owner_rec s) (upd (cwaiters s) c w) (eset s) (efut s) (nev s) (cphase_of s)
+      (cenq s) (setlog s) (inflight s) (horizon s) (nlog s) (issued s) (consumed s) (dropped s) (lost s).
 
 Definition with_phase (s : cst) (t : tid) (p : cphase) : cst :=
-  cmk (pinned s) (lk s) (owner_rec s) (cwaiters s) (eset s) (efut s) (nev s) (upd (cphase_of s) t p)
-      (cenq s) (setlog s) (inflight s) (issued s) (consumed s) (dropped s) (lost s).
+  cmk (variant s) (lk s) (owner_rec s) (cwaiters s) (eset s) (efut s) (nev s) (upd (cphase_of s) t p)
+      (cenq s) (setlog s) (inflight s) (horizon s) (nlog s) (issued s) (consumed s) (dropped s) (lost s).
 
 Definition with_efut (s : cst) (e : eid) (v : fstate) : cst :=
-  cmk (pinned s) (lk s) (owner_rec s) (cwaiters s) (eset s) (upd (efut s) e v) (nev s) (cphase_of s)
-      (cenq s) (setlog s) (inflight s) (issued s) (consumed s) (dropped s) (lost s).
+  cmk (variant s) (lk s) (owner_rec s) (cwaiters s) (eset s) (upd (efut s) e v) (nev s) (cphase_of s)
+      (cenq s) (setlog s) (inflight s) (horizon s) (nlog s) (issued s) (consumed s) (dropped s) (lost s).
 
 Definition with_inflight (s : cst) (l : list eid) : cst :=
-  cmk (pinned s) (lk s) (owner_rec s) (cwaiters s) (eset s) (efut s) (nev s) (cphase_of s)
-      (cenq s) (setlog s) l (issued s) (consumed s) (dropped s) (lost s).
+  cmk (variant s) (lk s) (owner_rec s) (cwaiters s) (eset s) (efut s) (nev s) (cphase_of s)
+      (cenq s) (setlog s) l (horizon s) (nlog s) (issued s) (consumed s) (dropped s) (lost s).
+
+Definition with_nlog (s : cst) (l : list nat) : cst :=
+  cmk (variant s) (lk s) (owner_rec s) (cwaiters s) (eset s) (efut s) (nev s) (cphase_of s)
+      (cenq s) (setlog s) (inflight s) (horizon s) l (issued s) (consumed s) (dropped s) (lost s).
 
 Definition with_counts (s : cst) (i c d l : nat) : cst :=
-  cmk (pinned s) (lk s) (owner_rec s) (cwaiters s) (eset s) (efut s) (nev s) (cphase_of s)
-      (cenq s) (setlog s) (inflight s) i c d l.
+  cmk (variant s) (lk s) (owner_rec s) (cwaiters s) (eset s) (efut s) (nev s) (cphase_of s)
+      (cenq s) (setlog s) (inflight s) (horizon s) (nlog s) i c d l.
 
-(* Event.set() on one-shot event e (asyncio.Event.set: no-op when already set; resolves a pending future) *)
-Definition do_set (s : cst) (e : eid) : cst :=
+(* Event.set() on one-shot event e (asyncio.Event.set: no-op when already set; resolves a pending future);
+   hz = the horizon of the notification it now carries *)
+Definition do_set (s : cst) (e : eid) (hz : nat) : cst :=
   if eset s e then s else
-  cmk (pinned s) (lk s) (owner_rec s) (cwaiters s) (upd (eset s) e true)
+  cmk (variant s) (lk s) (owner_rec s) (cwaiters s) (upd (eset s) e true)
       (match efut s e with FPending => upd (efut s) e FSet | _ => efut s end) (nev s) (cphase_of s)
-      (cenq s) (setlog s ++ [e]) (inflight s) (issued s) (consumed s) (dropped s) (lost s).
+      (cenq s) (setlog s ++ [e]) (inflight s) (upd (horizon s) e hz) (nlog s)
+      (issued s) (consumed s) (dropped s) (lost s).
 
-(* Condition.release(): self._lock.release(); self._owner_task = None  (the second statement only at HEAD) *)
-Definition released_owner (s : cst) : option tid := if pinned s then owner_rec s else None.
+(* _check_acquired(): HEAD asks the lock (`self._lock.statistics().owner`), the old trees their private copy *)
+Definition holder_check (s : cst) (c : cid) (t : tid) : bool :=
+  match variant s with
+  | 0 => tid_eqb_opt (owner (lk s)) t
+  | _ => tid_eqb_opt (owner_rec s c) t
+  end.
+
+(* old trees: Condition.acquire()/acquire_nowait() record the caller, Condition.release() clears the record
+   (variant 1) or leaves it (variant 2); HEAD has no record, the field is simply carried along *)
+Definition rec_acquired (s : cst) (oc : option cid) (t : tid) : cid -> option tid :=
+  match oc with Some c => upd (owner_rec s) c (Some t) | None => owner_rec s end.
+
+Definition rec_released (s : cst) (c : cid) : cid -> option tid :=
+  match variant s with 2 => owner_rec s | _ => upd (owner_rec s) c None end.
 
 (* notify(n): `for _ in range(n): try: event = self._waiters.popleft() except IndexError: break; event.set()` *)
-Fixpoint notify_loop (n : nat) (s : cst) : cst :=
+Fixpoint notify_loop (n : nat) (c : cid) (hz : nat) (s : cst) : cst :=
   match n with
   | 0 => s
   | S k =>
-      match cwaiters s with
+      match cwaiters s c with
       | [] => s
       | e :: r =>
-          let s1 := do_set (with_cw s r) e in
-          notify_loop k (with_counts (with_inflight s1 (inflight s1 ++ [e]))
-                                     (S (issued s1)) (consumed s1) (dropped s1) (lost s1))
+          let s1 := do_set (with_cw s c r) e hz in
+          notify_loop k c hz (with_counts (with_inflight s1 (inflight s1 ++ [e]))
+                                          (S (issued s1)) (consumed s1) (dropped s1) (lost s1))
       end
   end.
 
-(* the end of wait(): the shielded `await self.acquire()` produced lock result r for task t.
-   exc = an exception from the event wait is pending and is re-raised after the re-acquire. *)
-Definition finish_wait (s : cst) (t : tid) (e : eid) (exc : bool) (l' : Lock.st) (r : res) : cst * res :=
+Definition do_notify (s : cst) (c : cid) (n : nat) : cst :=
+  notify_loop n c (nev s) (with_nlog s (nlog s ++ [nev s])).
+
+(* lock.acquire() / acquire_nowait() by idle task t, directly (oc = None) or through condition c *)
+Definition acquire_begin (s : cst) (oc : option cid) (t : tid) (o : Lock.op) : cst * res :=
+  let '(l', r) := Lock.step (lk s) o in
   match r with
-  | RBlocked => (with_phase (with_lk s l') t (PReacq e exc), RBlocked)
+  | RDone => (with_owner (with_lk s l') (rec_acquired s oc t), RDone)
+  | RBlocked => (with_phase (with_lk s l') t (PAcq oc), RBlocked)
+  | _ => (with_lk s l', r)
+  end.
+
+(* the end of c.wait(): the shielded `await self.acquire()` produced lock result r for task t.
+   exc = an exception from the event wait is pending and is re-raised after the re-acquire. *)
+Definition finish_wait (s : cst) (t : tid) (c : cid) (e : eid) (exc : bool) (l' : Lock.st) (r : res)
+  : cst * res :=
+  match r with
+  | RBlocked => (with_phase (with_lk s l') t (PReacq c e exc), RBlocked)
   | RDone =>
-      let s1 := with_phase (with_owner (with_lk s l') (Some t)) t PIdle in
+      let s1 := with_phase (with_owner (with_lk s l') (rec_acquired s (Some c) t)) t PIdle in
       if exc then (s1, RCancelled)
       else (with_counts (with_inflight s1 (remove_first e (inflight s1)))
                         (issued s1) (S (consumed s1)) (dropped s1) (lost s1), RDone)
@@ -246,70 +290,67 @@ Definition finish_wait (s : cst) (t : tid) (e : eid) (exc : bool) (l' : Lock.st)
                         (issued s1) (consumed s1) (dropped s1) (S (lost s1)), r)
   end.
 
-(* `except BaseException:` branch of wait() for event e *)
-Definition wait_interrupted (s : cst) (e : eid) : cst :=
+(* `except BaseException:` branch of c.wait() for event e *)
+Definition wait_interrupted (s : cst) (c : cid) (e : eid) : cst :=
   if eset s e then
-    match cwaiters s with
+    match cwaiters s c with
     | [] =>
         with_counts (with_inflight s (remove_first e (inflight s)))
                     (issued s) (consumed s) (S (dropped s)) (lost s)
     | h :: r =>
         (* This task was notified but could not act on it, so pass it on to the next task *)
-        let s1 := do_set (with_cw s r) h in
+        let s1 := do_set (with_cw s c r) h (horizon s e) in
         with_inflight s1 (remove_first e (inflight s1) ++ [h])
     end
-  else with_cw s (remove_first e (cwaiters s)).
+  else with_cw s c (remove_first e (cwaiters s c)).
 
 Definition cstep (s : cst) (o : cop) : cst * res :=
   match o with
-  | CAcquire t =>
-      if negb (c_is_idle (cphase_of s t)) then (s, RRejected) else
-      let '(l', r) := Lock.step (lk s) (AcqBegin t) in
-      match r with
-      | RDone => (with_owner (with_lk s l') (Some t), RDone)
-      | RBlocked => (with_phase (with_lk s l') t PAcq, RBlocked)
-      | _ => (with_lk s l', r)
-      end
-  | CAcqNowait t =>
-      if negb (c_is_idle (cphase_of s t)) then (s, RRejected) else
-      let '(l', r) := Lock.step (lk s) (AcqNowait t) in
-      match r with
-      | RDone => (with_owner (with_lk s l') (Some t), RDone)
-      | _ => (with_lk s l', r)
-      end
-  | CRelease t =>
+  | CAcquire c t =>
+      if negb (c_is_idle (cphase_of s t)) then (s, RRejected) else acquire_begin s (Some c) t (AcqBegin t)
+  | LAcquire t =>
+      if negb (c_is_idle (cphase_of s t)) then (s, RRejected) else acquire_begin s None t (AcqBegin t)
+  | CAcqNowait c t =>
+      if negb (c_is_idle (cphase_of s t)) then (s, RRejected) else acquire_begin s (Some c) t (AcqNowait t)
+  | LAcqNowait t =>
+      if negb (c_is_idle (cphase_of s t)) then (s, RRejected) else acquire_begin s None t (AcqNowait t)
+  | CRelease c t =>
       if negb (c_is_idle (cphase_of s t)) then (s, RRejected) else
       let '(l', r) := Lock.step (lk s) (Release t) in
       match r with
-      | RDone => (with_owner (with_lk s l') (released_owner s), RDone)
+      | RDone => (with_owner (with_lk s l') (rec_released s c), RDone)
       | _ => (with_lk s l', r)
       end
-  | CNotify t n =>
+  | LRelease t =>
       if negb (c_is_idle (cphase_of s t)) then (s, RRejected) else
-      if tid_eqb_opt (owner_rec s) t then (notify_loop n s, RDone) else (s, RRuntime)
-  | CNotifyAll t =>
+      let '(l', r) := Lock.step (lk s) (Release t) in (with_lk s l', r)
+  | CNotify c t n =>
       if negb (c_is_idle (cphase_of s t)) then (s, RRejected) else
-      if tid_eqb_opt (owner_rec s) t then (notify_loop (length (cwaiters s)) s, RDone) else (s, RRuntime)
-  | CWait t =>
+      if holder_check s c t then (do_notify s c n, RDone) else (s, RRuntime)
+  | CNotifyAll c t =>
+      if negb (c_is_idle (cphase_of s t)) then (s, RRejected) else
+      if holder_check s c t then (do_notify s c (length (cwaiters s c)), RDone) else (s, RRuntime)
+  | CWait c t =>
       if negb (c_is_idle (cphase_of s t)) then (s, RRejected) else
       (* checkpoint_if_cancelled(): the caller is not in a cancelled scope here (C08 covers that) *)
-      if tid_eqb_opt (owner_rec s) t then
+      if holder_check s c t then
         let e := nev s in
-        let s1 := cmk (pinned s) (lk s) (owner_rec s) (cwaiters s ++ [e]) (upd (eset s) e false)
-                      (upd (efut s) e FPending) (S e) (cphase_of s)
-                      (cenq s ++ [e]) (setlog s) (inflight s) (issued s) (consumed s) (dropped s) (lost s) in
+        let s1 := cmk (variant s) (lk s) (owner_rec s) (upd (cwaiters s) c (cwaiters s c ++ [e]))
+                      (upd (eset s) e false) (upd (efut s) e FPending) (S e) (cphase_of s)
+                      (cenq s ++ [e]) (setlog s) (inflight s) (horizon s) (nlog s)
+                      (issued s) (consumed s) (dropped s) (lost s) in
         let '(l', r) := Lock.step (lk s) (Release t) in
         match r with
-        | RDone => (with_phase (with_owner (with_lk s1 l') (released_owner s)) t (PWait e), RBlocked)
+        | RDone => (with_phase (with_owner (with_lk s1 l') (rec_released s c)) t (PWait c e), RBlocked)
         | _ => (with_lk s1 l', r)    (* release() raised before the try: the event stays enqueued *)
         end
       else (s, RRuntime)
   | CCancel t =>
       match cphase_of s t with
       | PIdle => (s, RRejected)
-      | PAcq | PReacq _ _ =>
+      | PAcq _ | PReacq _ _ _ =>
           let '(l', r) := Lock.step (lk s) (Cancel t) in (with_lk s l', r)
-      | PWait e =>
+      | PWait _ e =>
           match efut s e with
           | FPending => (with_efut s e FCancelled, RNone)
           | _ => (with_lk s (set_mustc (lk s) t true), RNone)
@@ -321,13 +362,13 @@ Definition cstep (s : cst) (o : cop) : cst * res :=
          suspension is the first one, so retries of the delivery never find anything to do later. *)
       match cphase_of s t with
       | PIdle => (s, RRejected)
-      | PReacq _ _ => (s, RNone)         (* with CancelScope(shield=True): await self.acquire() *)
-      | PWait e =>
+      | PReacq _ _ _ => (s, RNone)         (* with CancelScope(shield=True): await self.acquire() *)
+      | PWait _ e =>
           match efut s e with
           | FPending => (with_efut s e FCancelled, RNone)
           | _ => (s, RNone)
           end
-      | PAcq =>
+      | PAcq _ =>
           match phase_of (lk s) t with
           | Waiting f =>
               match futs (lk s) f with
@@ -340,29 +381,29 @@ Definition cstep (s : cst) (o : cop) : cst * res :=
   | CResume t =>
       match cphase_of s t with
       | PIdle => (s, RRejected)
-      | PAcq =>
+      | PAcq oc =>
           let '(l', r) := Lock.step (lk s) (Resume t) in
           match r with
           | RRejected => (s, RRejected)
-          | RDone => (with_phase (with_owner (with_lk s l') (Some t)) t PIdle, RDone)
+          | RDone => (with_phase (with_owner (with_lk s l') (rec_acquired s oc t)) t PIdle, RDone)
           | _ => (with_phase (with_lk s l') t PIdle, r)
           end
-      | PReacq e exc =>
+      | PReacq c e exc =>
           let '(l', r) := Lock.step (lk s) (Resume t) in
           match r with
           | RRejected => (s, RRejected)
-          | _ => finish_wait s t e exc l' r
+          | _ => finish_wait s t c e exc l' r
           end
-      | PWait e =>
+      | PWait c e =>
           match efut s e with
           | FPending => (s, RRejected)
           | fs =>
               let interrupted := match fs with FSet => mustc (lk s) t | _ => true end in
               let s0 := with_lk s (set_mustc (lk s) t false) in
-              let s1 := if interrupted then wait_interrupted s0 e else s0 in
+              let s1 := if interrupted then wait_interrupted s0 c e else s0 in
               (* finally: with CancelScope(shield=True): await self.acquire() *)
               let '(l', r) := Lock.step (lk s1) (AcqBegin t) in
-              finish_wait s1 t e interrupted l' r
+              finish_wait s1 t c e interrupted l' r
           end
       end
   end.
@@ -372,7 +413,7 @@ Definition cstep (s : cst) (o : cop) : cst * res :=
    AnyIO cancellation (CScopeCancel) cannot do this; the C11 theorems that need it assume `clean_run`. *)
 Definition native_reacq (s : cst) (o : cop) : bool :=
   match o with
-  | CCancel t => match cphase_of s t with PReacq _ _ => true | _ => false end
+  | CCancel t => match cphase_of s t with PReacq _ _ _ => true | _ => false end
   | _ => false
   end.
 
@@ -382,16 +423,43 @@ Fixpoint clean_run (s : cst) (ops : list cop) : bool :=
   | o :: r => negb (native_reacq s o) && clean_run (fst (cstep s o)) r
   end.
 
+(* ---- known finding F18: hand-over to a later arrival ----
+   `late_handover s o` = op o resumes a waiter that was notified and interrupted, and the head of its
+   condition's queue - which is about to receive the notification - started waiting at or after the notify call
+   that issued it (event ids count wait() calls, `horizon` is that count at the notify call). *)
+Definition late_handover (s : cst) (o : cop) : bool :=
+  match o with
+  | CResume t =>
+      match cphase_of s t with
+      | PWait c e =>
+          let interrupted := match efut s e with FPending => false | FSet => mustc (lk s) t | _ => true end in
+          if interrupted && eset s e then
+            match cwaiters s c with
+            | h :: _ => Nat.leb (horizon s e) h
+            | [] => false
+            end
+          else false
+      | _ => false
+      end
+  | _ => false
+  end.
+
+Fixpoint no_late_handover (s : cst) (ops : list cop) : bool :=
+  match ops with
+  | [] => true
+  | o :: r => negb (late_handover s o) && no_late_handover (fst (cstep s o)) r
+  end.
+
 (* ---- observable output ---- *)
 Definition cobserve (s : cst) (r : res) : list Z :=
-  [res_code r; nz (length (cwaiters s));
+  [res_code r; nz (length (cwaiters s 0)); nz (length (cwaiters s 1)); nz (length (cwaiters s 2));
    bz (match owner (lk s) with Some _ => true | None => false end);
    match owner (lk s) with Some t => nz t | None => 0%Z end;
    nz (length (waiters (lk s)))].
 
 (* ====================================================================================================== *)
 (*  codec (shared with harness/c11.py)                                                                    *)
-(*  case = machine :: fast :: pinned :: (code, task, n)*       machine 0 = Event, 1 = Condition           *)
+(*  case = machine :: fast :: variant :: (code, task, a, b)*    machine 0 = Event, 1 = Condition          *)
 (* ====================================================================================================== *)
 Definition decode_eop (c t : Z) : eop :=
   match c with
@@ -399,22 +467,23 @@ Definition decode_eop (c t : Z) : eop :=
   | _ => EvScopeCancel (zn t)
   end%Z.
 
-Definition decode_cop (c t n : Z) : cop :=
+Definition decode_cop (c t a b : Z) : cop :=
   match c with
-  | 0 => CAcquire (zn t) | 1 => CAcqNowait (zn t) | 2 => CRelease (zn t) | 3 => CResume (zn t)
-  | 4 => CCancel (zn t) | 5 => CNotify (zn t) (zn n) | 6 => CNotifyAll (zn t) | 7 => CWait (zn t)
-  | _ => CScopeCancel (zn t)
+  | 0 => CAcquire (zn a) (zn t) | 1 => CAcqNowait (zn a) (zn t) | 2 => CRelease (zn a) (zn t)
+  | 3 => CResume (zn t) | 4 => CCancel (zn t) | 5 => CNotify (zn a) (zn t) (zn b)
+  | 6 => CNotifyAll (zn a) (zn t) | 7 => CWait (zn a) (zn t) | 8 => CScopeCancel (zn t)
+  | 9 => LAcquire (zn t) | 10 => LAcqNowait (zn t) | _ => LRelease (zn t)
   end%Z.
 
 Fixpoint decode_eops (l : list Z) : list eop :=
   match l with
-  | c :: t :: _ :: r => decode_eop c t :: decode_eops r
+  | c :: t :: _ :: _ :: r => decode_eop c t :: decode_eops r
   | _ => []
   end.
 
 Fixpoint decode_cops (l : list Z) : list cop :=
   match l with
-  | c :: t :: n :: r => decode_cop c t n :: decode_cops r
+  | c :: t :: a :: b :: r => decode_cop c t a b :: decode_cops r
   | _ => []
   end.
 
@@ -427,13 +496,15 @@ Fixpoint erun_obs (s : est) (ops : list eop) : list Z :=
 Fixpoint crun_obs (s : cst) (ops : list cop) : list Z :=
   match ops with
   | [] => []
-  | o :: r => let '(s1, out) := cstep s o in cobserve s1 out ++ crun_obs s1 r
+  | o :: r =>
+      let late := late_handover s o in
+      let '(s1, out) := cstep s o in cobserve s1 out ++ [bz late] ++ crun_obs s1 r
   end.
 
 Definition run_case (c : list Z) : list Z :=
   match c with
-  | m :: fa :: pin :: r =>
+  | m :: fa :: v :: r =>
       if Z.eqb m 0 then erun_obs einit (decode_eops r)
-      else crun_obs (cinit (zb fa) (zb pin)) (decode_cops r)
+      else crun_obs (cinit (zb fa) (zn v)) (decode_cops r)
   | _ => []
   end.
